@@ -143,7 +143,8 @@ def run(tier):
     stats = storage.campaign(chk, "C11", plans, TYPES, CTXS, bindir, judge, rnd)
     # two ACTIVE shards (spec/Storage2Gen.tla): the same monitors on each shard's directory tree while the other shard
     # stores, flushes, compacts and crashes in the same process
-    sp = storage.campaign2(chk, "C11", [{"name": "c11p-cap2k2", "cap": 2, "k": 2, "gen_len": 10, "n_sim": 400, "n_rep": 8 if q else 120}],
+    sp = storage.campaign2(chk, "C11", [{"name": "c11p-cap2k2", "cap": 2, "k": 2, "gen_len": 10, "n_sim": 400, "n_rep": 6 if q else 120},
+                                        {"name": "c11p-lock-cap2k2", "cap": 2, "k": 2, "gen_len": 12, "n_sim": 300, "n_rep": 3 if q else 60, "lock": True}],
                            CTXS, bindir, judge, random.Random(core.seed() + 111))
     chk.cov["traces_validated_against_impl"] += sp["behaviours"]
     stats["observations"] += sp["observations"]
